@@ -2,6 +2,8 @@ import Tw.Model.Huffman
 import Tw.Proofs.Huffman
 import Tw.Proofs.HuffmanDec
 import Tw.Proofs.HuffmanTable
+import Tw.Proofs.HuffmanRefC
+import Tw.Proofs.HuffmanRefD
 import Tw.Gen.Huffman
 
 /-!
@@ -96,6 +98,39 @@ theorem decompress_capacity_iff (t : Table) (h : WellFormed t) (input : List UIn
       ∀ cap' out, decompress t input cap' = .ok out → cap < out.length :=
   Tw.Huffman.decompress_capacity_iff t h input cap
 
+/-! ## (4) agreement with the C++ reference (`huffman.cpp`, modelled in `Tw/Model/HuffmanRef.lean`) -/
+
+/-- The reference-compatible output is byte-identical to what `CHuffman::Compress` writes (32-bit
+bit buffer, final byte written unconditionally), for every input. -/
+theorem compress_bug_eq_reference (t : Table) (h : WellFormed t) (xs : List UInt8) :
+    compress t true xs = refCompress t xs := (refCompress_eq_compress_bug t h xs).symm
+
+/-- … also as a function of the buffer size (the reference returns -1 iff the bytes do not fit). -/
+theorem compress_bug_into_eq_reference (t : Table) (h : WellFormed t) (xs : List UInt8) (cap : Nat) :
+    compressInto t true xs cap = refCompressInto t xs cap := by
+  simp only [compressInto, refCompressInto, refCompress_eq_compress_bug t h xs]
+
+/-- Whenever `CHuffman::Decompress` (10-bit lookup table, 32-bit bit buffer whose `unsigned
+Bitcount` wraps around at the end of the input, "no more bits" error below the table) decodes an
+input successfully into a buffer of `cap` bytes, this decoder returns the same bytes.  `LutOk t`
+(decidable) says that a symbol the lookup table finds has `m_NumBits` equal to the depth at which it
+was found; `fuel` bounds the iterations of the reference's loop (running out of it is not `ok`). -/
+theorem reference_decodes_implies_same (t : Table) (h : WellFormed t) (hl : LutOk t) (fuel : Nat)
+    (input : List UInt8) (cap : Nat) (out : List UInt8)
+    (hr : refDecompress t fuel input cap = .ok out) : decompress t input cap = .ok out :=
+  refDecompress_agrees t h hl fuel input cap out hr
+
+/-- The built-in table satisfies `LutOk` (kernel-evaluated over all 1024 table entries). -/
+theorem table_lutOk : LutOk Tw.Gen.Huffman.table := lutOk_table
+
+/-- The converse fails — the reference rejects truncated streams this decoder completes with zero
+bits (doc/huffman.md) — so the implication above is all the property asks for: concretely, the
+documentation's example without its last byte. -/
+theorem reference_is_stricter_witness :
+    refDecompress Tw.Gen.Huffman.table 9 [0xb1, 0x08, 0x2a, 0x6e] 7 = .error
+      ∧ decompress Tw.Gen.Huffman.table [0xb1, 0x08, 0x2a, 0x6e] 7 = .ok [0, 1, 0, 2, 0, 0x80, 0] := by
+  decide +kernel
+
 /-! ## non-vacuity -/
 
 example : decompress Tw.Gen.Huffman.table [0xb1, 0x08, 0x2a, 0x6e, 0x00] 7
@@ -105,5 +140,7 @@ example : compress Tw.Gen.Huffman.table true [0, 1, 0, 2, 0, 0x80, 0] = [0xb1, 0
 example : decompress Tw.Gen.Huffman.table [0xb1, 0x08, 0x2a, 0x6e, 0x00] 6 = .capacity := by
   decide +kernel
 example : decompress Tw.Gen.Huffman.table [0xff, 0xff] 100 = .capacity := by decide +kernel
+example : refDecompress Tw.Gen.Huffman.table 9 [0xb1, 0x08, 0x2a, 0x6e, 0x00] 7
+    = .ok [0, 1, 0, 2, 0, 0x80, 0] := by decide +kernel
 
 end Tw.Props.C07
